@@ -293,6 +293,20 @@ CLAIMED = {
         'Atomicity of concurrent operations is observed under OS-chosen '
         'schedules; clients are fork-context only.',
         'DESIGN.md section 3 C20'),
+    'C16': (
+        'unit+processes',
+        'Model-based Hypothesis op sequences on Queue/JoinableQueue/SimpleQueue '
+        'vs a deque model; generated multi-party producer/consumer runs '
+        '(processes and threads) with tagged sequences',
+        'Generated put/get/task_done/join sequences (capacities 0-5, timeouts, '
+        'items up to 200 kB) agree with a model deque: Full exactly at capacity, '
+        'Empty on a timed get not before the timeout (to clock granularity), '
+        'FIFO and unchanged items, task_done over-call raises, join returns '
+        'exactly when all items are done. With 1-4 producers and 1-4 consumers '
+        'the received multiset equals the sent one and each consumer sees every '
+        'producer\'s items in order. Exploration level.',
+        'Multi-party interleavings are OS-chosen; fork start method only.',
+        'DESIGN.md section 3 C16'),
 }
 
 NOT_YET = 'check not built yet in this session (planned, see DESIGN.md section 3)'
